@@ -1899,6 +1899,51 @@ class Interp:
     _REDUCE_LOOP = ast.parse("for __x in __xs:\n    __acc = __f(__acc, __x)\n").body[0]
     _REDUCE_LOOP_NOINIT = ast.parse("__acc = __xs[0]\nfor __x in __xs[1:]:\n    __acc = __f(__acc, __x)\n").body
 
+    def _suffix_recursion_as_fold(self, q, args, kwargs, res):
+        """H(.., s) = BASE if len(s) == 0 else STEP(H(.., s[1:]), s[0])  - structural recursion on the suffixes of a
+        sequence - is the right fold  `acc = BASE; for x in reversed(s): acc = STEP(acc, x)`.  `res` is H's body inlined
+        once with the inner call left as a call to H; recognised only in exactly this shape."""
+        if res[0] != "ite":
+            return None
+        r_ = self.prog.lookup(q)
+        if not r_ or r_[0] != "func":
+            return None
+        pnames = [p_.arg for p_ in r_[2].args.posonlyargs + r_[2].args.args]
+        outer = dict(zip(pnames, [self.as_term(a) for a in args]))
+        outer.update({k: self.as_term(v) for k, v in kwargs.items()})
+        inner = [t for t in walk(res) if t[0] == "call" and t[1] == ("ext", q)]
+        if len({key(t) for t in inner}) != 1:
+            return None
+        ic = inner[0]
+        inn = dict(zip(pnames, ic[2]))
+        inn.update(dict(ic[3]))
+        if set(inn) != set(outer):
+            return None
+        diff = [k for k in outer if outer[k] != inn[k]]
+        if len(diff) != 1:
+            return None
+        S = outer[diff[0]]
+        if inn[diff[0]] != proj_sub(S, ("slice", C(1), NONE, NONE)):
+            return None
+        c, a, b = res[1], res[2], res[3]
+        empty = mk_cmp("==", ("call", ("ext", "builtins.len"), (S,), ()), C(0))
+        if c == empty:
+            base, step = a, b
+        elif c == mk_not(empty) or c == S:
+            base, step = b, a
+        else:
+            return None
+        if any(t == ic for t in walk(base)) or any(t == S for t in walk(base)):
+            return None
+        d = self.depth
+        acc, x = ("bv", d, 1), ("bv", d, 0)
+        head = proj_sub(S, C(0))
+        body = subst(step, lambda t: acc if t == ic else (x if t == head else None))
+        if any(t == S for t in walk(body)):
+            return None          # the step looks at the sequence other than through its head
+        it = ("call", ("ext", "builtins.reversed"), (S,), ())
+        return ("fold", it, ("lam", 2, ("tuple", (body,)), d), ("tuple", (self.eta(base),)))
+
     def _reduce_as_loop(self, args, ctx):
         f, xs = args[0], args[1]
         xs = xs if isinstance(xs, tuple) else self.reify(xs)
@@ -2682,7 +2727,12 @@ class Interp:
                 self.stack.append(q)
                 try:
                     if not decs:
-                        return self.apply_def(r[2], Env(), mctx, args, kwargs)
+                        res_ = self.apply_def(r[2], Env(), mctx, args, kwargs)
+                        if isinstance(res_, tuple):
+                            f_ = self._suffix_recursion_as_fold(q, args, kwargs, res_)
+                            if f_ is not None:
+                                return f_
+                        return res_
                     # a transforming decorator (eqx.filter_vmap, ...): apply it to the function value, as for a
                     # nested def, then call the result
                     val = Closure(r[2], Env(), mctx, r[2].name)
